@@ -118,7 +118,7 @@ class Model:
     def _mark(self, f: Optional[Fn], role: str, slot: str = "") -> None:
         if f is None or not f.is_func:
             return
-        rank = {"helper": 0, "subscribe": 2, "deferred": 2, "dispose": 3, "action": 3, "handler": 3}
+        rank = {"helper": 0, "subscribe": 2, "deferred": 2, "callback": 3, "dispose": 3, "action": 3, "handler": 3}
         if rank[role] >= rank.get(self.role.get(f, "helper"), 0):
             self.role[f] = role
             if slot:
@@ -161,6 +161,13 @@ class Model:
                         t = resolve_callable(scope, n.args[0])
                         if t.kind == "fn":
                             self._mark(t.fn, "dispose")
+                    elif self._is_operator_call(scope, n):
+                        # a local function handed to an operator (ops.map(projection), ops.scan(acc, seed), ...) runs per
+                        # element of every subscription of the resulting pipeline
+                        for a in list(n.args) + [k.value for k in n.keywords]:
+                            t = resolve_callable(scope, a)
+                            if t.kind == "fn" and t.fn is not None and not t.fn.parent.is_module and self.role.get(t.fn, "helper") == "helper":
+                                self._mark(t.fn, "callback")
         # stages
         for m in self.repo.modules.values():
             for f in m.root.walk():
@@ -185,6 +192,19 @@ class Model:
                                     self._raise_stage(g, s)
                                     changed = True
 
+    def _is_operator_call(self, scope: Fn, n: ast.Call) -> bool:
+        f = n.func
+        if isinstance(f, ast.Attribute) and isinstance(f.value, ast.Name) and f.value.id in ("ops", "operators"):
+            return True
+        if isinstance(f, ast.Name):
+            try:
+                tgt = self.repo.resolve_expr(scope, f)
+            except Exception:  # noqa: BLE001
+                tgt = None
+            if tgt is not None and tgt.is_func and tgt.module.rel.startswith("reactivex/operators/"):
+                return True
+        return False
+
     def _raise_stage(self, g: Fn, s: int) -> None:
         self.stage[g] = s
         for c in g.descendants():
@@ -202,7 +222,7 @@ class Model:
             self.stage[f] = ps
             return ps
         role = self.role.get(f, "helper")
-        if role in ("handler", "action", "dispose"):
+        if role in ("handler", "action", "dispose", "callback"):
             s = 3
         elif role in ("subscribe", "deferred"):
             s = 2
